@@ -1,4 +1,6 @@
+pub mod locate;
 pub mod parsers;
+pub mod peer;
 pub mod reader;
 pub mod scan;
 pub mod writer;
